@@ -1374,7 +1374,7 @@ class QueryBuilder(Selectable, Term):
             querystring += self._where_sql(**kwargs)
 
         if self._groupbys:
-            querystring += self._group_sql(**kwargs)
+            querystring += self._group_sql(subquery=True, **kwargs)
             if self._mysql_rollup:
                 querystring += self._rollup_sql()
 
@@ -1382,7 +1382,7 @@ class QueryBuilder(Selectable, Term):
             querystring += self._having_sql(**kwargs)
 
         if self._orderbys:
-            querystring += self._orderby_sql(**kwargs)
+            querystring += self._orderby_sql(subquery=True, **kwargs)
 
         querystring = self._apply_pagination(querystring, **kwargs)
 
@@ -1572,7 +1572,7 @@ class QueryBuilder(Selectable, Term):
         return " WITH ROLLUP"
 
     def _having_sql(self, quote_char: Optional[str] = None, **kwargs: Any) -> str:
-        return " HAVING {having}".format(having=self._havings.get_sql(quote_char=quote_char, **kwargs))
+        return " HAVING {having}".format(having=self._havings.get_sql(quote_char=quote_char, subquery=True, **kwargs))
 
     def _offset_sql(self) -> str:
         return " OFFSET {offset}".format(offset=self._offset)
